@@ -117,6 +117,7 @@ def validate(module, cfg, trace_files, *, xmx="3g", timeout=3600, parallel=16, e
     The module reads IOEnv.TRACE_FILE, evaluates Verdict on each event and prints
     <<"validated", n, "rejected", k>> and one <<"REJECT", tid, clause, property, context>> per rejected event.
     Returns (number validated, list of reject tuples, info tuples)."""
+    trace_files = split_big(trace_files)
     jobs = [(module, cfg, t, i, xmx, timeout, env) for i, t in enumerate(trace_files)]
     total = 0
     rejects = []
@@ -127,6 +128,30 @@ def validate(module, cfg, trace_files, *, xmx="3g", timeout=3600, parallel=16, e
             rejects += rj
             infos += inf
     return total, rejects, infos
+
+
+def split_big(files, max_bytes=48_000_000):
+    """ndjson files larger than max_bytes are split by lines into <file>.partNNN (the JSON module holds a whole file in memory);
+    the original stays (callers look rejected steps up in it). Returns the list of files to validate."""
+    out = []
+    for p in files:
+        if os.path.getsize(p) <= max_bytes:
+            out.append(p)
+            continue
+        k, size, f = 0, 0, None
+        with open(p) as src:
+            for line in src:
+                if f is None or size + len(line) > max_bytes:
+                    if f:
+                        f.close()
+                    q = f"{p}.part{k:03d}"
+                    f, size, k = open(q, "w"), 0, k + 1
+                    out.append(q)
+                f.write(line)
+                size += len(line)
+        if f:
+            f.close()
+    return out
 
 
 def shard_events(events, name, nshards=16, max_per=None):
